@@ -594,7 +594,9 @@ func corpusCase(k int, seed uint64) lpCase {
 }
 
 func drawLP(t *rapid.T) lpCase {
-	if rapid.IntRange(0, 1999).Draw(t, "corpus") == 0 {
+	// (hashed: rapid's integer generators favour small values, and every corpus
+	// instance that cycles costs the full deadline)
+	if vk.NewSplitMix(rapid.Uint64().Draw(t, "corpus")).Intn(3000) == 0 {
 		k := rapid.IntRange(0, len(cyclingCorpus)-1).Draw(t, "instance")
 		seed := uint64(0)
 		if rapid.Bool().Draw(t, "variant") {
